@@ -477,6 +477,7 @@ func init() {
 					}
 				}
 			}
+			out = append(out, Inst{Pkg: "knx", Fn: "HarnessC09Parked", Ctx: 2, MaxSched: 20000, Note: "no accepted telegram is lost across a reconnect"})
 			return out
 		},
 		Thorough: func(l *loaded) []Inst {
@@ -545,7 +546,7 @@ func init() {
 		var out []Inst
 		for client := int64(0); client < 5; client++ {
 			for k := int64(2); k <= maxK; k++ {
-				for mode := int64(0); mode < 3; mode++ {
+				for mode := int64(0); mode < 4; mode++ {
 					out = append(out, Inst{Pkg: "knx", Fn: "HarnessC17", Args: []int64{client, k, mode}})
 				}
 			}
@@ -558,7 +559,7 @@ func init() {
 		Quick:    func(l *loaded) []Inst { return c17(3) },
 		Thorough: func(l *loaded) []Inst { return c17(5) },
 		Covers:   []string{"C17.end"},
-		Bounds:   "tunnel client (pushInbound directly and through handleTunnelReq in UDP and TCP mode), router client and the group layer; bursts of 2..3 (thorough ..5) accepted telegrams; consumer always waiting, absent for the whole burst, or taking one telegram and then stalling; every interleaving of the server side, the parked delivery goroutines and the consumer",
+		Bounds:   "tunnel client (pushInbound directly and through handleTunnelReq in UDP and TCP mode), router client and the group layer; bursts of 2..3 (thorough ..5) accepted telegrams; consumer always waiting, absent for the whole burst, taking one telegram and then stalling, or resuming in the middle of the burst; every interleaving of the server side, the parked delivery goroutines and the consumer",
 		Outside:  "bursts longer than 5; the runtime's FIFO order among senders that are already blocked is not modelled (any blocked sender may be served), which only adds schedules",
 		Assume:   []string{"the pinned tree reordered overflowed telegrams (per-telegram goroutines); repaired by the fix: commit recorded in known_findings.json, so all consumer behaviours are enforced now"},
 	})
@@ -583,7 +584,7 @@ func init() {
 		if thorough {
 			ctx = 3
 		}
-		for sc := int64(0); sc <= 2; sc++ {
+		for sc := int64(0); sc <= 3; sc++ {
 			out = append(out, Inst{Pkg: "knx", Fn: "HarnessC14Run", Args: []int64{sc}, Ctx: ctx, RandChoice: true, MaxSched: 20000, Note: "real serve goroutine"})
 		}
 		return out
@@ -608,6 +609,8 @@ func init() {
 		add(2, 1, 2, 5, 30, 2)
 		add(1, 2, 1, 0, 10, 3)
 		add(2, 2, 0, 20, 0, 3)
+		out = append(out, Inst{Pkg: "knx", Fn: "HarnessC13", Args: []int64{2, 1, 0, 20, 0, 2}, Ctx: 2, RandChoice: true, MaxSched: 20000, Note: "lost indication: repetitions are paced too"},
+			Inst{Pkg: "knx", Fn: "HarnessC13", Args: []int64{1, 2, 1, 5, 30, 3}, Ctx: 2, RandChoice: true, MaxSched: 20000})
 		if thorough {
 			add(3, 2, 2, 5, 30, 2)
 			add(3, 1, 2, 20, 100, 3)
@@ -643,6 +646,13 @@ func init() {
 		if thorough {
 			ctx = 3
 		}
+		out = append(out, Inst{Pkg: "knx", Fn: "HarnessC09Parked", Ctx: ctx, MaxSched: 20000, Note: "telegrams parked while the reader is absent survive a reconnect"},
+			Inst{Pkg: "knx", Fn: "HarnessC09SendAcross", Args: []int64{0}, Ctx: 2, MaxSched: 20000, Note: "a Send waiting behind a pending one while the gateway reconnects"},
+			Inst{Pkg: "knx", Fn: "HarnessC09Traffic", Args: []int64{3}, Ctx: ctx, MaxSched: 20000, Note: "heartbeat due although inbound frames keep arriving"},
+			Inst{Pkg: "knx", Fn: "HarnessC09Traffic", Args: []int64{7}, Ctx: ctx, MaxSched: 20000})
+		if thorough {
+			out = append(out, Inst{Pkg: "knx", Fn: "HarnessC09SendAcross", Args: []int64{1}, Ctx: 2, MaxSched: 30000})
+		}
 		for _, hb := range []int64{3, 7} {
 			out = append(out, Inst{Pkg: "knx", Fn: "HarnessC09Epoch", Args: []int64{hb, 0, 0}, Ctx: ctx, MaxSched: 20000})
 			for hm := int64(1); hm <= 4; hm++ {
@@ -658,8 +668,8 @@ func init() {
 		NoNative: true,
 		Quick:    func(l *loaded) []Inst { return c09(false) },
 		Thorough: func(l *loaded) []Inst { return c09(true) },
-		Covers:   []string{"C09.cs.answered", "C09.cs.failed", "C09.dispatch.disconnect_request", "C09.dispatch.disconnect_response", "C09.dispatch.ignored", "C09.epoch.healthy", "C09.epoch.failed", "C09.epoch.alive", "C09.epoch.terminated"},
-		Bounds:   "one real connection-state exchange from an arbitrary channel against K<=3 (thorough 4) environment events (silence, resend interval passes, status with all 256 values symbolic, channel closed); the real process() dispatch on one frame of each kind with a symbolic channel; bounded runs of the real serve() goroutine against a gateway goroutine over two epochs: heartbeat interval shorter (3.3 s) and longer (7.3 s) than the 5.1 s response timeout, heartbeat answered / unanswered / error status (symbolic) / foreign channel / disconnect request, reconnect accepted (new channel symbolic) / busy then accepted / refused (status symbolic) / unanswered; initial channel and send counter symbolic; context bound 2 (thorough 3)",
+		Covers:   []string{"C09.cs.answered", "C09.cs.failed", "C09.dispatch.disconnect_request", "C09.dispatch.disconnect_response", "C09.dispatch.ignored", "C09.epoch.healthy", "C09.epoch.failed", "C09.epoch.alive", "C09.epoch.terminated", "C09.parked.end", "C09.across.end", "C09.traffic.end"},
+		Bounds:   "one real connection-state exchange from an arbitrary channel against K<=3 (thorough 4) environment events (silence, resend interval passes, status with all 256 values symbolic, channel closed); the real process() dispatch on one frame of each kind with a symbolic channel; bounded runs of the real serve() goroutine against a gateway goroutine over two epochs: heartbeat interval shorter (3.3 s) and longer (7.3 s) than the 5.1 s response timeout, heartbeat answered / unanswered / error status (symbolic) / foreign channel / disconnect request, reconnect accepted (new channel symbolic) / busy then accepted / refused (status symbolic) / unanswered; initial channel and send counter symbolic; telegrams parked for an absent reader across a reconnect; a Send waiting behind a pending Send while the gateway drops and re-establishes the connection (channel/counter pair must be consistent); heartbeats under steady inbound traffic; context bound 2 (thorough 3)",
 		Outside:  "runs of 3..5 epochs (an epoch change is covered as such; serve() keeps no state across epochs but the Tunnel fields checked here); interval values other than the two configurations; real-time jitter",
 		Assume:   []string{"timers on the virtual clock; interval values chosen so that few timers expire at the same instant"},
 	})
